@@ -50,11 +50,11 @@ MARK_NEXT = dict(id='mark_next', sig=r'static bool mark_next\(marked_ptr block, 
       must_fire={'A_LOAD': 2, 'A_CASW': 1, 'deref:block': 3})
 REMOVE_OR_SKIP = dict(id='remove_or_skip_marked_block', sig=r'remove_or_skip_marked_block\(marked_ptr& next, marked_ptr& last, marked_ptr next_prev, stamp_t next_stamp\)',
       c_sig='static _Bool sq_remove_or_skip_marked_block(mptr* next_p, mptr* last_p, mptr next_prev, stamp_t next_stamp)', subst=[REF('next'), REF('last')],
-      deref={'(*next_p)': 'MTCB', '(*last_p)': 'MTCB'}, must_fire={'A_LOAD': 2, 'A_CAS': 1, 'call:mark_next': 1, 'subst:ref_next': 9, 'subst:ref_last': 6})
+      deref={'(*next_p)': 'MTCB', '(*last_p)': 'MTCB'}, must_fire={'A_LOAD': 2, 'A_CAS': 1, 'call:mark_next': 1, 'subst:ref_next': 8, 'subst:ref_last': 5})
 RFPL = dict(id='remove_from_prev_list', sig=r'static bool remove_from_prev_list\(marked_ptr& prev, marked_ptr b, marked_ptr& next\)',
       c_sig='static _Bool sq_remove_from_prev_list(mptr* prev_p, mptr b, mptr* next_p)', subst=[REF('prev'), REF('next')],
       deref={'(*prev_p)': 'MTCB', '(*next_p)': 'MTCB', 'b': 'MTCB'},
-      must_fire={'A_LOAD': 9, 'A_CAS': 1, 'call:mark_next': 1, 'subst:call_remove_or_skip': 1, 'subst:call_save_next': 1, 'subst:perf_iter': 1})
+      must_fire={'A_LOAD': 10, 'A_CAS': 1, 'call:mark_next': 1, 'subst:call_remove_or_skip': 1, 'subst:call_save_next': 1, 'subst:perf_iter': 1})
 RFNL = dict(id='remove_from_next_list', sig=r'static void remove_from_next_list\(marked_ptr prev, marked_ptr removed, marked_ptr next\)',
       c_sig='static void sq_remove_from_next_list(mptr prev, mptr removed, mptr next)',
       deref={'prev': 'MTCB', 'next': 'MTCB', 'removed': 'MTCB'},
@@ -64,7 +64,7 @@ UPDATE_TAIL = dict(id='update_tail_stamp', sig=r'void update_tail_stamp\(size_t 
       must_fire={'A_LOAD': 5, 'A_CAS': 1, 'A_CASW': 1, 'call:make_marked': 1})
 PUSH = dict(id='push', sig=r'void push\(thread_control_block\* block\)',
       c_sig='static void sq_push(struct toq* self, tcbp block)', members=QM, deref={'head': 'TCB', 'block': 'TCB', 'my_prev': 'MTCB'},
-      must_fire={'A_LOAD': 6, 'A_STORE': 4, 'A_FADD': 1, 'A_CASW': 2, 'subst:call_make_clean_marked': 2, 'call:make_marked': 2, 'subst:perf_iter': 1})
+      must_fire={'A_LOAD': 5, 'A_STORE': 4, 'A_FADD': 1, 'A_CASW': 2, 'subst:call_make_clean_marked': 2, 'call:make_marked': 2, 'subst:perf_iter': 1})
 REMOVE = dict(id='remove', sig=r'bool remove\(marked_ptr block\)',
       c_sig='static _Bool sq_remove(struct toq* self, mptr block)', members=QM, deref={'block': 'MTCB'},
       self_calls={'update_tail_stamp': 'sq_update_tail_stamp'},
@@ -113,7 +113,7 @@ SYNC = [
   ORD('13', IN_TS + r'->stamp\.load\(' + MO + r'\)'),
   ORD('14', IN_UTS + r'tail->next\.load\(' + MO + r'\)'),
   ORD('15', IN_UTS + r'last->prev\.load\(' + MO + r'\)'),
-  ORD('16', IN_UTS + r'tail->stamp\.' + CX + r'\(' + ANY + MO + r'\)'),
+  ORD('16', IN_UTS + r'tail->stamp\.(?:' + CX + r'|store)\(' + ANY + MO + r'\)'),     # (a plain store here is caught by stampq.store.own_only)
   ORD('17', IN_RFPL + r'\sprev = prev->prev\.load\(' + MO + r'\)'),
   ORD('18', IN_RFPL + r'auto next_prev = next->prev\.load\(' + MO + r'\)'),
   ORD('19', IN_RFPL + r'auto next_stamp = next->stamp\.load\(' + MO + r'\)'),
@@ -147,11 +147,18 @@ UNIT = dict(
         'WITH_PERF_COUNTER undefined (INC_PERF_CNT/PERF_COUNTER dropped, iterations.inc() becomes the ghost iteration counter XV_ITER()); '
         'deletable_object_with_stamp is struct node {next_chunk}; `new thread_control_block()` is a ghost allocator handing out zero-initialised pool blocks; '
         'roles are fixed WLOG (block 1 = tail, 2 = head, 3.. = list blocks oldest first, the last one outside); in INT runs the code\'s own assert()s are not checked '
-        '(the rely is far weaker than the algorithm\'s invariant) and a null/wild block pointer reads a junk block instead of being a violation',
+        '(the rely is far weaker than the algorithm\'s invariant) and a null/wild block pointer reads a junk block instead of being a violation; '
+        'in INT runs the environment step of xv.h is aimed at the cell about to be accessed (harness.c redefines XV_A_LOAD/STORE/RMW/CAS with the same text, XV_ENV() replaced by ENV_AT(cell)): '
+        'rewriting that one cell before each access is what the thread can observe of "any cell may change at any time"; loop cuts havoc all cells; '
+        'functions with retry loops are lowered twice from the same text: sq_* (loops kept, unwound completely in SEQ runs) and sqi_* (loops cut by invariants, INT runs)',
   assumptions=[
-    'INT runs use the rely "other threads write any well-typed value into any cell at any time": only commit obligations (what a CAS expects / installs, in which order) are decided there, '
-    'not the functional behaviour of push/remove under concurrency (linearizability of the queue is the Stamp-it paper\'s argument)',
+    'INT runs (mark_int, uts_int, rfpl_int, rfnl_int, remove_int, push_int, global_int) use the rely "other threads write any well-typed value into any cell at any time" '
+    '(typed: head->prev unmarked, head/tail stamps free of flags, no stamp with both flags, the caller\'s own stamp only helped from pending to final): they decide the commit obligations '
+    '(what every CAS expects and installs, in which order, what is stored where) for every path of one arbitrary loop iteration, NOT the functional behaviour of push/remove under concurrency',
+    'linearizability / the global invariant "tail->stamp <= stamp of every block in the list" under arbitrary interleavings is the Stamp-it paper\'s argument; here it is decided for sequential '
+    'executions from quiescent queues and from the enumerated mid-operation states (one stalled pusher and/or one stalled remover, not adjacent), not for all reachable concurrent states',
     'stamps do not wrap (head->stamp <= SIZE_MAX - 4*StampInc)',
+    'thread_block_list (acquire_control_block) is unit tbl; marked_ptr bit layout is unit mp',
   ],
   consts=[
     dict(name='MarkBits', file=H, regex=r'static constexpr size_t MarkBits = ([^;]+);', subst=[(r'^(.*)$', r'(size_t)(\1)')]),
@@ -175,8 +182,8 @@ UNIT = dict(
     S(id='save_next_as_last', sig=r'static void save_next_as_last_and_move_next_to_next_prev\(marked_ptr next_prev, marked_ptr& next, marked_ptr& last\)',
       c_sig='static void sq_save_next_as_last(mptr next_prev, mptr* next_p, mptr* last_p)', subst=[REF('next'), REF('last')],
       deref={'next_prev': 'MTCB', '(*next_p)': 'MTCB'}, must_fire={'A_LOAD': 2, 'A_CAS': 1, 'subst:ref_next': 3, 'subst:ref_last': 1}),
-    S(id='head_stamp', sig=r'stamp_t head_stamp\(\)', c_sig='static stamp_t sq_head_stamp(struct toq* self)', members=QM, deref={'head': 'TCB'}, must_fire={'A_LOAD': 1}),
-    S(id='tail_stamp', sig=r'stamp_t tail_stamp\(\)', c_sig='static stamp_t sq_tail_stamp(struct toq* self)', members=QM, deref={'tail': 'TCB'}, must_fire={'A_LOAD': 1}),
+    S(id='head_stamp', sig=r'stamp_t head_stamp\(\)', c_sig='static stamp_t sq_head_stamp(struct toq* self)', members=QM, deref={'head': 'TCB', 'tail': 'TCB'}, must_fire={'A_LOAD': 1}),
+    S(id='tail_stamp', sig=r'stamp_t tail_stamp\(\)', c_sig='static stamp_t sq_tail_stamp(struct toq* self)', members=QM, deref={'head': 'TCB', 'tail': 'TCB'}, must_fire={'A_LOAD': 1}),
     S(id='steal_global', sig=r'deletable_object_with_stamp\* steal_global_retired_nodes\(\)',
       c_sig='static struct node* sq_steal_global(struct toq* self)', members=QM, must_fire={'A_LOAD': 1, 'A_XCHG': 1}),
   ] + both({0: 'SMF'}, **SET_MARK_FLAG) + both({0: 'MN'}, **MARK_NEXT) + both({}, **REMOVE_OR_SKIP) + both({0: 'RFPL'}, **RFPL) + both({0: 'RFNL'}, **RFNL)
@@ -188,10 +195,12 @@ UNIT = dict(
     dict(id='sync', entry='h_sync', cls='unbounded', note='the memory orders written at the 32 annotated synchronisation points (extracted from the text) are at least what the comments require'),
     dict(id='mark', entry='h_mark', unwindset=UW_SEQ, cls='unbounded', note='set_mark_flag / mark_next on an arbitrary cell of an arbitrary pool; SEQ: the retry loops end in their first iteration'),
     dict(id='ctor', entry='h_ctor', cls='unbounded'),
-    dict(id='push', entry='h_push', unwindset=UW_SEQ, cls='shape-complete', unwind_obligation='stampq.push.terminates',
+    dict(id='push', entry='h_push', unwindset=UW_SEQ, cls='shape-complete', tiers=['quick'], unwind_obligation='stampq.push.terminates',
          note='SEQ, any quiescent queue of 0..3 blocks (arbitrary stamps/tags), arbitrary leftovers in the pushed block; loops unwound completely'),
-    dict(id='remove', entry='h_remove', unwindset=UW_SEQ, cls='shape-complete', unwind_obligation='stampq.remove.terminates',
+    dict(id='remove', entry='h_remove', unwindset=UW_SEQ, cls='shape-complete', tiers=['quick'], unwind_obligation='stampq.remove.terminates',
          note='SEQ, any block of any quiescent queue of 1..3 blocks; loops unwound completely'),
+    dict(id='push_4', entry='h_push', unwindset=UW_SEQ, defs={'LMAX': '4u'}, cls='shape-complete', tiers=['thorough'], unwind_obligation='stampq.push.terminates', note='queues of 0..4 blocks'),
+    dict(id='remove_4', entry='h_remove', unwindset=UW_SEQ, defs={'LMAX': '4u'}, cls='shape-complete', tiers=['thorough'], timeout=1800, unwind_obligation='stampq.remove.terminates', note='queues of 1..4 blocks'),
     dict(id='mid_push', entry='h_mid', unwindset=UW_MID, defs={'XV_MID_OP': 0}, flags=['--object-bits', '10'], cls='shape-complete', unwind_obligation='stampq.push.terminates',
          note='SEQ push from mid-operation states: queue of 1..3 blocks with a pending / not yet next-linked newest block and/or a block whose remover stalled after marking or half-way through unlinking'),
     dict(id='mid_remove_1', entry='h_mid', unwindset=UW_MID, defs={'XV_MID_OP': 1, 'XV_N': 1, 'LMAX': '1u'}, flags=['--object-bits', '10'], cls='shape-complete', unwind_obligation='stampq.remove.terminates',
